@@ -228,6 +228,34 @@ def F7():
             return f"structure_factor_maximum returns {L} for a resolved plane wave at spacing {h}"
 
 
+def F15():
+    from droplets.droplets import PerturbedDroplet3DAxisSym
+    d = PerturbedDroplet3DAxisSym([0, 0, 1.0], 2.0, 0.1, [0.0, 0.3])
+    th, ph = np.array([0.3]), np.array([0.5])
+    want = float(d.interface_distance(th)[0])
+    got = float(np.linalg.norm(d.interface_position(th, ph) - d.position))
+    if abs(want - got) > 1e-12:
+        return f"axisymmetric interface_position ignores the amplitudes: |pos - centre| = {got}, interface_distance = {want}"
+    tri = d.get_triangulation(1.0)
+    v = tri["vertices"] - d.position
+    r = np.linalg.norm(v, axis=1)
+    theta = np.arccos(v[:, 2] / r)
+    if not np.allclose(r, d.interface_distance(theta), rtol=1e-12):
+        return "triangulation vertices of an axisymmetric droplet do not lie on its interface"
+
+
+def F16():
+    from pde import CylindricalSymGrid
+    from droplets import DiffuseDroplet
+    from droplets.image_analysis import get_length_scale
+    g = CylindricalSymGrid(4, (0, 16), (8, 32))
+    f = DiffuseDroplet([0, 0, 8], 2, 0.5).get_phase_field(g)
+    try:
+        L = get_length_scale(f, method="droplet_detection")
+    except Exception as e:
+        return f"get_length_scale(method='droplet_detection') on a cylindrical grid raises {type(e).__name__}: {e}"
+
+
 ALL = {k: v for k, v in globals().items() if k[0] == "F" and callable(v)}
 
 if __name__ == "__main__":
